@@ -38,6 +38,11 @@ func init() {
 	register("C12", true, checkC12)
 	register("C11", true, checkC11)
 	register("C10", true, checkC10)
+	register("C09", true, checkC09)
+	register("C04", true, checkC04)
+	register("C02", true, checkC02)
+	register("ES", false, checkES)
+	register("IX", true, checkIXdebug)
 }
 
 func main() {
